@@ -43,7 +43,7 @@ def mark(counter_path, letter, event):
 def fork_child(counter_path, how):
     """The body forks (as multiprocessing with the fork start method or a plain os.fork does); the child leaves as
     `how` says - quit: os._exit(0) (what multiprocessing children do), exit0 / exit3: sys.exit(code), raise: an
-    exception nobody catches - and the parent waits for it, then marks F.  Not traced: no kill point in between,
+    exception nobody catches, return: it returns from the body as if it were the job - and the parent waits for it, then marks F.  Not traced: no kill point in between,
     the whole life of the child is one moment of the body."""
     pid = os.fork()
     if pid == 0:
@@ -53,6 +53,13 @@ def fork_child(counter_path, how):
             sys.exit(0)
         if how == "exit3":
             sys.exit(3)
+        if how == "return":
+            return "child"   # the child goes back through the frames of the body and of the runner
         raise RuntimeError("C10 forked child failure")
     os.waitpid(pid, 0)
+    # the markers as they are now, the job process being in the middle of its body
+    base = os.environ.get("VPK_C10_BASE")
+    if base:
+        emit("M %d%d%d" % tuple(int(os.path.exists(base + ext)) for ext in (".done", ".failed", ".pid")))
     mark(counter_path, "F", "E Fork")
+    return "parent"
